@@ -67,9 +67,9 @@ def _parser_conditions():
         for i, code in enumerate(codes):
             f = make(name, fn, code)
             tiers = ('quick', 'thorough') if i % tiers_quick_every == 0 else ('thorough',)
-            for n in (0, 2, 5):
-                out.append(Cond(name=f'parse_{name}_{code:02x}@n={n}', fn=f, pre=list(_PRE5), fixed={'n': n}, family='parsers', tiers=tiers if n < 5 else ('thorough',), kernels=K, timeout=(30, 180),
-                                bounds=f'{name}: dispatch byte per condition (every registered code + undefined ones), 0/2/5 following bytes symbolic: returns or raises an ordinary exception'))
+            for n in (0, 2, 4):
+                out.append(Cond(name=f'parse_{name}_{code:02x}@n={n}', fn=f, pre=list(_PRE5), fixed={'n': n}, family='parsers', tiers=tiers if n < 4 else ('thorough',), kernels=K, timeout=(40, 100),
+                                bounds=f'{name}: dispatch byte per condition (every registered code + undefined ones), 0/2 (quick) and 0/2/4 (thorough) following bytes symbolic: returns or raises an ordinary exception'))
     add('att', att.ATT_PDU.from_bytes, sorted(set(int(k) for k in att.ATT_PDU.pdu_classes) | {0x00, 0x7E}), 3)
     add('smp', smp.SMP_Command.from_bytes, sorted(set(int(k) for k in smp.SMP_Command.smp_classes) | {0x00, 0x7E}), 3)
     add('l2capsig', l2cap.L2CAP_Control_Frame.from_bytes, sorted(set(int(k) for k in l2cap.L2CAP_Control_Frame.classes) | {0x00, 0x7E}), 3)
@@ -88,8 +88,8 @@ def _event_codes():
     return sorted((set(hci.HCI_Event.event_classes) | {0x00, 0x3E, 0xFF, 0x7B}) - {hci.HCI_DISCONNECTION_COMPLETE_EVENT})
 
 
-@harness(pre=_PRE5 + ['0 <= i < 6'], family='host', twin=True, kernels=K, timeout=(60, 300), grids=[(('quick',), {'n': [0, 2], 'chunk': list(range(12))}), (('thorough',), {'n': [0, 3, 5], 'chunk': list(range(12))})],
-         bounds='Host.on_packet with an HCI event of every registered code (+ undefined, LE meta, vendor; 12 chunks, code selected by a symbolic index), 0/2 (quick) or 0/3/5 (thorough) symbolic parameter bytes with a consistent length byte: returns; afterwards a Number Of Completed Packets event is still processed')
+@harness(pre=_PRE5 + ['0 <= i < 6'], family='host', twin=True, kernels=K, timeout=(60, 200), grids=[(('quick',), {'n': [0, 1], 'chunk': list(range(12))}), (('thorough',), {'n': [0, 2, 3], 'chunk': list(range(12))})],
+         bounds='Host.on_packet with an HCI event of every registered code (+ undefined, LE meta, vendor; 12 chunks, code selected by a symbolic index), 0/1 (quick) or 0/2/3 (thorough) symbolic parameter bytes with a consistent length byte: returns; afterwards a Number Of Completed Packets event is still processed')
 def host_hostile_event(x0: int, x1: int, x2: int, x3: int, x4: int, i: int, n: int, chunk: int) -> bool:
     codes = EVCODES[chunk::12]
     if i >= len(codes):
@@ -156,8 +156,8 @@ def _sig_codes():
     return sorted(set(int(k) for k in l2cap.L2CAP_Control_Frame.classes) | {0x00, 0x7E})
 
 
-@harness(pre=_PRE5 + ['0 <= i < 6'], family='l2cap', twin=True, kernels=K, timeout=(60, 300), grids=[(('quick',), {'n': [0, 2], 'cid': [1, 5], 'chunk': [0, 1, 2, 3, 4, 5]}), (('thorough',), {'n': [0, 2, 5], 'cid': [1, 5], 'chunk': [0, 1, 2, 3, 4, 5]})],
-         bounds='ChannelManager.on_pdu on the classic / LE signalling channel with every signalling code (symbolic index), 0/2/5 symbolic bytes and a consistent length: ordinary exception at most; a following Echo Request is answered with the Echo Response carrying its data')
+@harness(pre=_PRE5 + ['0 <= i < 6'], family='l2cap', twin=True, kernels=K, timeout=(60, 200), grids=[(('quick',), {'n': [0, 1], 'cid': [1, 5], 'chunk': [0, 1, 2, 3, 4, 5]}), (('thorough',), {'n': [0, 2, 3], 'cid': [1, 5], 'chunk': [0, 1, 2, 3, 4, 5]})],
+         bounds='ChannelManager.on_pdu on the classic / LE signalling channel with every signalling code (symbolic index), 0..2 (quick) / 0..4 (thorough) symbolic bytes and a consistent length: ordinary exception at most; a following Echo Request is answered with the Echo Response carrying its data')
 def signalling_garbage_then_echo(x0: int, x1: int, x2: int, x3: int, x4: int, i: int, n: int, cid: int, chunk: int) -> bool:
     codes = SIGCODES[chunk::6]
     if i >= len(codes):
@@ -240,8 +240,8 @@ def coc_hostile_sdu_then_good(l0: int, n0: int, n1: int, frames: int, good: int)
 
 # ------------------------------------------------------------------------------------------
 # ATT server behind Device.on_gatt_pdu-style parsing: garbage, then a Read Request is answered
-@harness(pre=_PRE5 + ['0 <= i < 8'], family='att', twin=True, kernels=K, timeout=(60, 300), grids=[(('quick',), {'n': [0, 3], 'chunk': [0, 1, 2, 3, 4, 5]}), (('thorough',), {'n': [0, 2, 5], 'chunk': [0, 1, 2, 3, 4, 5]})],
-         bounds='ATT bearer: a PDU with every opcode (symbolic index over registered + undefined codes) and 0/2/5 symbolic bytes is parsed and dispatched as Device.on_gatt_pdu does (ordinary exception at most); a following Read Request is answered with the value')
+@harness(pre=_PRE5 + ['0 <= i < 8'], family='att', twin=True, kernels=K, timeout=(60, 200), grids=[(('quick',), {'n': [0, 2], 'chunk': [0, 1, 2, 3, 4, 5]}), (('thorough',), {'n': [0, 2, 4], 'chunk': [0, 1, 2, 3, 4, 5]})],
+         bounds='ATT bearer: a PDU with every opcode (symbolic index over registered + undefined codes) and 0..2 (quick) / 0..4 (thorough) symbolic bytes is parsed and dispatched as Device.on_gatt_pdu does (ordinary exception at most); a following Read Request is answered with the value')
 def att_garbage_then_read(x0: int, x1: int, x2: int, x3: int, x4: int, i: int, n: int, chunk: int) -> bool:
     codes = ATTCODES[chunk::6]
     if i >= len(codes):
@@ -285,8 +285,8 @@ class _SdpChan:
         self.sent.append(bytes(pdu))
 
 
-@harness(pre=_PRE5, family='sdp', twin=True, kernels=K, timeout=(60, 300), grids=[(('quick',), {'pdu': [0, 1, 2, 3, 4, 5, 6, 7, 9], 'n': [0, 2]}), (('thorough',), {'pdu': [0, 1, 2, 3, 4, 5, 6, 7, 9], 'n': [0, 2, 5]})],
-         bounds='sdp.Server.on_pdu with every PDU id and 0/2/5 symbolic bytes after a consistent header: ordinary exception at most; a following well-formed Service Search Request is answered with the matching handle')
+@harness(pre=_PRE5, family='sdp', twin=True, kernels=K, timeout=(60, 200), grids=[(('quick',), {'pdu': [0, 1, 2, 3, 4, 5, 6, 7, 9], 'n': [0, 1]}), (('thorough',), {'pdu': [0, 1, 2, 3, 4, 5, 6, 7, 9], 'n': [0, 2, 3]})],
+         bounds='sdp.Server.on_pdu with every PDU id and 0..2 (quick) / 0..4 (thorough) symbolic bytes after a consistent header: ordinary exception at most; a following well-formed Service Search Request is answered with the matching handle')
 def sdp_garbage_then_search(x0: int, x1: int, x2: int, x3: int, x4: int, pdu: int, n: int) -> bool:
     del core.UUID.UUIDS[8:]
     with untraced():
@@ -361,7 +361,7 @@ class _L2:
         self.sent.append(bytes(pdu))
 
 
-@harness(pre=_PRE5, family='rfcomm', twin=True, kernels=K, timeout=(60, 300), grids=[(('quick',), {'n': [1, 2]}), (('thorough',), {'n': [1, 3, 4, 5]})],
+@harness(pre=_PRE5, family='rfcomm', twin=True, kernels=K, timeout=(60, 200), grids=[(('quick',), {'n': [1, 2]}), (('thorough',), {'n': [1, 3, 4]})],
          bounds='rfcomm.Multiplexer.on_pdu with 1/3/5 symbolic bytes: ordinary exception at most; a following SABM on DLCI 0 is answered with UA')
 def rfcomm_garbage_then_sabm(x0: int, x1: int, x2: int, x3: int, x4: int, n: int) -> bool:
     with untraced():
